@@ -262,3 +262,169 @@ package stream
 //@   ensures result1 == ErrMoreThanOne ==> old(s.n - s.pos) >= 2 || result1 == s.lasterr
 //@   ensures result1 != nil ==> result0 == zero(result0)
 //@   ensures C08: result1 != nil && result1 != ErrEmpty && result1 != ErrMoreThanOne ==> result1 == s.lasterr
+
+// ---- WithPeek ----
+
+//@ ghost Peekable.seq seq[T]
+//@ ghost Peekable.n int
+//@ ghost Peekable.pos int
+//@ ghost Peekable.closes int
+//@ ghost Peekable.lasterr error
+
+//@ pred pkInv(p) = p != nil && 0 <= p.pos && p.pos <= p.n && p.closes == 0
+
+//@ ext stream.Peekable.Next(p, ctx) (item, err)
+//@   requires pkInv(p)
+//@   modifies p.pos, p.lasterr
+//@   ensures pkInv(p) && p.lasterr == err
+//@   ensures err == nil ==> old(p.pos) < p.n && item == p.seq[old(p.pos)] && p.pos == old(p.pos) + 1
+//@   ensures err == End ==> old(p.pos) >= p.n
+//@   ensures err != nil ==> p.pos == old(p.pos) && item == zero(item)
+
+//@ ext stream.Peekable.Peek(p, ctx) (item, err)
+//@   requires pkInv(p)
+//@   modifies p.lasterr
+//@   ensures pkInv(p) && p.lasterr == err && p.pos == old(p.pos)
+//@   ensures err == nil ==> p.pos < p.n && item == p.seq[p.pos]
+//@   ensures err == End ==> p.pos >= p.n
+//@   ensures err != nil ==> item == zero(item)
+
+//@ ext stream.Peekable.Close(p)
+//@   requires p != nil && p.closes == 0
+//@   modifies p.closes
+//@   ensures p.closes == 1
+
+//@ pred pkRep(s, p) = stInv(s.inner) && p != nil && 0 <= p.pos && p.seq == s.inner.seq && p.n == s.inner.n
+//@   && p.pos == s.inner.pos - (s.has ? 1 : 0)
+//@   && (s.has ==> s.curr == s.inner.seq[s.inner.pos-1])
+
+//@ func WithPeek
+//@   props C07
+//@   requires stInv(s)
+//@   ghost result.seq := s.seq
+//@   ghost result.n := s.n
+//@   ghost result.pos := s.pos
+//@   ghost result.closes := 0
+//@   ensures fresh(result) && result.(*peekable[T]).inner == s && pkRep(result.(*peekable[T]), result) && result.closes == 0
+
+//@ func peekable.Next
+//@   props C07 C08
+//@   requires pkRep(s, s.(Peekable[T]))
+//@   modifies s.curr, s.has, s.inner.pos, s.inner.pulls, s.inner.lasterr, s.(Peekable[T]).pos
+//@   ghost s.(Peekable[T]).pos := s.inner.pos - (s.has ? 1 : 0)
+//@   ensures pkRep(s, s.(Peekable[T]))
+//@   ensures result1 == nil ==> old(s.(Peekable[T]).pos) < s.(Peekable[T]).n && result0 == s.(Peekable[T]).seq[old(s.(Peekable[T]).pos)] && s.(Peekable[T]).pos == old(s.(Peekable[T]).pos) + 1 && !s.has
+//@   ensures result1 == End ==> old(s.(Peekable[T]).pos) >= s.(Peekable[T]).n
+//@   ensures result1 != nil ==> s.(Peekable[T]).pos == old(s.(Peekable[T]).pos) && result0 == zero(result0)
+//@   ensures C08: result1 != nil ==> srcFailed(s.inner, result1) && s.has == old(s.has) && s.curr == old(s.curr)
+
+//@ func peekable.Peek
+//@   props C07 C08
+//@   requires pkRep(s, s.(Peekable[T]))
+//@   modifies s.curr, s.has, s.inner.pos, s.inner.pulls, s.inner.lasterr
+//@   ensures pkRep(s, s.(Peekable[T])) && s.(Peekable[T]).pos == old(s.(Peekable[T]).pos)
+//@   ensures result1 == nil ==> s.(Peekable[T]).pos < s.(Peekable[T]).n && result0 == s.(Peekable[T]).seq[s.(Peekable[T]).pos] && s.has
+//@   ensures result1 == End ==> s.(Peekable[T]).pos >= s.(Peekable[T]).n && !s.has
+//@   ensures result1 != nil ==> result0 == zero(result0)
+//@   ensures C08: result1 != nil ==> !old(s.has) && !s.has && srcFailed(s.inner, result1)
+
+// ---- Last ----
+
+//@ func Last
+//@   props C07 C08 C09
+//@   requires stInv(s) && n >= 0
+//@   modifies s.pos, s.pulls, s.lasterr, s.closes
+//@   ghostinit r := 0
+//@   loop 0: ghost r := (n > 0 && r + 1 < n) ? r + 1 : 0
+//@   loop 0: invariant stInv(s) && i == s.pos - old(s.pos) && len(buf) == n && fresh(buf) && off(buf) == 0
+//@   loop 0: invariant n > 0 ==> 0 <= r && r < n && r == i % n && (i < n ==> r == i)
+//@   loop 0: invariant n > 0 ==> (forall t int {buf[t]} :: 0 <= t && t < r ==> buf[t] == s.seq[old(s.pos) + i - r + t])
+//@   loop 0: invariant n > 0 && i >= n ==> (forall t int {buf[t]} :: r <= t && t < n ==> buf[t] == s.seq[old(s.pos) + i - r - n + t])
+//@   ensures C09: s.closes == 1
+//@   ensures result1 == nil ==> s.pos == s.n && len(result0) == min(n, s.n - old(s.pos))
+//@       && (forall t int {result0[t]} :: 0 <= t && t < len(result0) ==> result0[t] == s.seq[s.n - len(result0) + t])
+//@   ensures C08: result1 != nil ==> result0 == nil && result1 == s.lasterr && result1 != End
+
+// ---- FlattenSlices ----
+
+//@ func FlattenSlices
+//@   props C07
+//@   ensures fresh(result) && result.(*flattenSlicesStream[T]).inner == s && result.(*flattenSlicesStream[T]).buffer == nil
+
+//@ func flattenSlicesStream.Next
+//@   props C07 C08
+//@   requires stInv(s.inner)
+//@   modifies s.buffer, elems(s.buffer), s.inner.pos, s.inner.pulls, s.inner.lasterr, all(elems(s.buffer))
+//@   loop 0: invariant stInv(s.inner) && old(s.inner.pos) <= s.inner.pos
+//@   loop 0: invariant s.inner.pos == old(s.inner.pos) ==> s.buffer == old(s.buffer) && row(s.buffer) == old(row(s.buffer))
+//@   loop 0: invariant s.inner.pos > old(s.inner.pos) ==> old(len(s.buffer)) == 0 && s.buffer == s.inner.seq[s.inner.pos-1]
+//@       && (forall t int {s.inner.seq[t]} :: old(s.inner.pos) <= t && t < s.inner.pos - 1 ==> len(s.inner.seq[t]) == 0)
+//@   ensures stInv(s.inner)
+//@   ensures result1 == nil && old(len(s.buffer)) > 0 ==> result0 == old(s.buffer[0]) && s.buffer == old(s.buffer[1:]) && s.inner.pos == old(s.inner.pos)
+//@   ensures result1 == nil && old(len(s.buffer)) == 0 ==> s.inner.pos > old(s.inner.pos) && len(s.inner.seq[s.inner.pos-1]) > 0 && s.buffer == s.inner.seq[s.inner.pos-1][1:]
+//@       && (forall t int {s.inner.seq[t]} :: old(s.inner.pos) <= t && t < s.inner.pos - 1 ==> len(s.inner.seq[t]) == 0)
+//@   ensures C08: result1 != nil ==> result0 == zero(result0) && result1 == s.inner.lasterr && old(len(s.buffer)) == 0 && len(s.buffer) == 0
+//@       && (forall t int {s.inner.seq[t]} :: old(s.inner.pos) <= t && t < s.inner.pos ==> len(s.inner.seq[t]) == 0)
+//@   ensures result1 == End ==> s.inner.pos >= s.inner.n
+
+// ---- Flatten: inner streams are obtained one at a time, each is closed exactly once when it ends ----
+
+//@ pred fsRep(s) = stInv(s.inner)
+//@   && (forall j int {s.inner.seq[j]} :: 0 <= j && j < s.inner.n ==> s.inner.seq[j] != nil && alloc(s.inner.seq[j]))
+//@   && (forall j1 int, j2 int {s.inner.seq[j1], s.inner.seq[j2]} :: 0 <= j1 && j1 < j2 && j2 < s.inner.n ==> s.inner.seq[j1] != s.inner.seq[j2])
+//@   && (forall j int {s.inner.seq[j]} :: s.inner.pos <= j && j < s.inner.n ==> stInv(s.inner.seq[j]))
+//@   && (s.curr != nil ==> s.inner.pos >= 1 && s.curr == s.inner.seq[s.inner.pos-1] && stInv(s.curr))
+//@   && (forall j int {s.inner.seq[j]} :: 0 <= j && j < s.inner.pos - (s.curr != nil ? 1 : 0) ==> s.inner.seq[j].closes == 1 && s.inner.seq[j].pos >= s.inner.seq[j].n)
+
+//@ func Flatten
+//@   props C07
+//@   ensures fresh(result) && result.(*flattenStream[T]).inner == s && result.(*flattenStream[T]).curr == nil
+
+//@ func flattenStream.Next
+//@   props C07 C08 C09
+//@   requires fsRep(s)
+//@   modifies s.curr, s.inner.pos, s.inner.pulls, s.inner.lasterr, all(s.curr.pos), all(s.curr.pulls), all(s.curr.lasterr), all(s.curr.closes)
+//@   loop 0: invariant fsRep(s) && old(s.inner.pos) <= s.inner.pos
+//@   ensures fsRep(s) && old(s.inner.pos) <= s.inner.pos
+//@   ensures result1 == nil ==> s.curr != nil && s.curr.pos >= 1 && result0 == s.curr.seq[s.curr.pos-1]
+//@   ensures result1 != nil ==> result0 == zero(result0)
+//@   ensures C08: result1 != nil ==> (s.curr == nil && result1 == s.inner.lasterr) || (s.curr != nil && result1 == s.curr.lasterr && result1 != End)
+//@   ensures result1 == End ==> s.curr == nil && s.inner.pos >= s.inner.n
+
+//@ func flattenStream.Close
+//@   props C09
+//@   requires fsRep(s)
+//@   modifies s.inner.closes, s.curr.closes
+//@   ensures s.inner.closes == 1 && (s.curr != nil ==> s.curr.closes == 1)
+//@   ensures forall j int {s.inner.seq[j]} :: 0 <= j && j < s.inner.pos ==> s.inner.seq[j].closes == 1
+
+// ---- Join (quantified over raw positions of the backing array: re-slicing keeps them) ----
+
+//@ pure jlo(s) = off(s.remaining)
+//@ pure jhi(s) = off(s.remaining) + len(s.remaining)
+//@ pred jsRep(s) = (forall k int {row(s.remaining)[k]} :: jlo(s) <= k && k < jhi(s) ==> row(s.remaining)[k] != nil && stInv(row(s.remaining)[k]))
+//@   && (forall k1 int, k2 int {row(s.remaining)[k1], row(s.remaining)[k2]} :: jlo(s) <= k1 && k1 < k2 && k2 < jhi(s) ==> row(s.remaining)[k1] != row(s.remaining)[k2])
+//@ pred jsSuffix(s) = arr(s.remaining) == old(arr(s.remaining)) && jhi(s) == old(jhi(s)) && old(jlo(s)) <= jlo(s) && row(s.remaining) == old(row(s.remaining))
+//@   && (forall k int {row(s.remaining)[k]} :: old(jlo(s)) <= k && k < jlo(s) ==> row(s.remaining)[k].closes == 1 && row(s.remaining)[k].pos >= row(s.remaining)[k].n)
+
+//@ func Join
+//@   props C07
+//@   ensures fresh(result) && result.(*joinStream[T]).remaining == streams
+
+//@ func joinStream.Next
+//@   props C07 C08 C09
+//@   requires jsRep(s)
+//@   modifies s.remaining, all(s.remaining[0].pos), all(s.remaining[0].pulls), all(s.remaining[0].lasterr), all(s.remaining[0].closes)
+//@   loop 0: invariant jsRep(s) && jsSuffix(s)
+//@   ensures jsRep(s) && jsSuffix(s)
+//@   ensures result1 == nil ==> len(s.remaining) > 0 && s.remaining[0].pos >= 1 && result0 == s.remaining[0].seq[s.remaining[0].pos-1]
+//@   ensures result1 != nil ==> result0 == zero(result0)
+//@   ensures C08: result1 != nil && result1 != End ==> len(s.remaining) > 0 && result1 == s.remaining[0].lasterr
+//@   ensures result1 == End ==> len(s.remaining) == 0 || result1 == s.remaining[0].lasterr
+
+//@ func joinStream.Close
+//@   props C09
+//@   requires jsRep(s)
+//@   modifies all(s.remaining[0].closes)
+//@   loop 0: invariant forall k int {row(s.remaining)[k]} :: jlo(s) <= k && k < jhi(s) ==> row(s.remaining)[k].closes == (k < jlo(s) + idx0 ? 1 : 0)
+//@   ensures forall k int {row(s.remaining)[k]} :: jlo(s) <= k && k < jhi(s) ==> row(s.remaining)[k].closes == 1
